@@ -5,7 +5,7 @@
 From Coq Require Import String.
 From Coq Require Import List Arith Lia Bool ZArith Permutation Ring.
 From NV.Lib Require Import RingMat.
-From NV.C01 Require Import Model Exec Proofs ProofsZ CMap CMapProofs.
+From NV.C01 Require Import Model Exec Proofs ProofsZ CMap CMapProofs Axes AxesProofs.
 Import ListNotations.
 
 Section Generic.
@@ -102,6 +102,39 @@ Section Generic.
     Apply b x = Ok (vadd radd (Happly (amat a) x) (map ropp d)) /\ cnames (arng b) = cnames (arng a) /\
     cname (arng b) = nm /\ cnames (adom b) = cnames (adom a).
   Proof. exact (shift_range_apply R r0 r1 radd rmul rsub ropp reqb Rth reqb_spec). Qed.
+  (* Dropping an orthogonal axis pair (input i, output o): every remaining output is the same
+     function of the remaining inputs - for every value of the dropped input - and the names
+     that remain are exactly the others, in order. *)
+  Theorem drop_axis_leaves_rest_untouched : forall a i o f b x,
+    WFr a -> drop_io_dim R r0 r1 reqb a (Some i) (Some o) f = Ok b ->
+    i < cs_ndim (adom a) -> o < cs_ndim (arng a) -> length x = cs_ndim (adom a) ->
+    Apply b (drop_nth i x) = Ok (drop_nth o (Happly (amat a) x)) /\
+    cnames (adom b) = drop_nth i (cnames (adom a)) /\ cnames (arng b) = drop_nth o (cnames (arng a)).
+  Proof. exact (drop_io_dim_both R r0 r1 radd rmul rsub ropp reqb Rth reqb_spec). Qed.
+
+  (* ... and the dropped output was a function of the dropped input alone *)
+  Theorem dropped_axis_pair_is_isolated : forall a i o f b x,
+    WFr a -> drop_io_dim R r0 r1 reqb a (Some i) (Some o) f = Ok b ->
+    i < cs_ndim (adom a) -> o < cs_ndim (arng a) -> length x = cs_ndim (adom a) ->
+    nth o (Happly (amat a) x) r0 =
+      radd (rmul (nth i (nth o (amat a) []) r0) (nth i x r0)) (last (nth o (amat a) []) r0).
+  Proof. exact (drop_io_dim_pair_isolated R r0 r1 radd rmul rsub ropp reqb Rth reqb_spec). Qed.
+
+  (* an output axis that no input drives: the other outputs are untouched *)
+  Theorem drop_output_only_leaves_rest_untouched : forall a o f b x,
+    WFr a -> drop_io_dim R r0 r1 reqb a None (Some o) f = Ok b -> o < cs_ndim (arng a) ->
+    length x = cs_ndim (adom a) ->
+    Apply b x = Ok (drop_nth o (Happly (amat a) x)) /\
+    cnames (adom b) = cnames (adom a) /\ cnames (arng b) = drop_nth o (cnames (arng a)).
+  Proof. exact (drop_io_dim_output_only R r0 r1 radd rmul reqb reqb_spec). Qed.
+
+  (* an input axis that drives no output: the map is untouched on the points where that input is 0 *)
+  Theorem drop_input_only_leaves_rest_untouched : forall a i f b x,
+    WFr a -> drop_io_dim R r0 r1 reqb a (Some i) None f = Ok b -> i < cs_ndim (adom a) ->
+    length x = cs_ndim (adom a) -> nth i x r0 = r0 ->
+    Apply b (drop_nth i x) = Ok (Happly (amat a) x) /\
+    cnames (adom b) = drop_nth i (cnames (adom a)) /\ cnames (arng b) = cnames (arng a).
+  Proof. exact (drop_io_dim_input_only R r0 r1 radd rmul rsub ropp reqb Rth reqb_spec). Qed.
 End Generic.
 
 Print Assumptions compose_apply.
@@ -115,6 +148,57 @@ Print Assumptions product_acts_blockwise.
 Print Assumptions append_axis_leaves_rest_untouched.
 Print Assumptions shifted_domain_origin_apply.
 Print Assumptions shifted_range_origin_apply.
+Print Assumptions drop_axis_leaves_rest_untouched.
+Print Assumptions dropped_axis_pair_is_isolated.
+Print Assumptions drop_output_only_leaves_rest_untouched.
+Print Assumptions drop_input_only_leaves_rest_untouched.
+
+(* ---- which axis pair an axis id names (io_axis_indices / axmap); `ornts` is nibabel's
+   io_orientation column, the only oracle ---- *)
+Theorem axis_index_names_that_input_axis : forall ins outs ornts j,
+  j < length ins -> io_axis_indices ins outs ornts (AxInt (Z.of_nat j)) = AxOk (Some j) (nth j ornts None).
+Proof. exact io_axis_int_in_range. Qed.
+Print Assumptions axis_index_names_that_input_axis.
+
+Theorem negative_axis_index_counts_from_last_input : forall ins outs ornts j,
+  j < length ins ->
+  io_axis_indices ins outs ornts (AxInt (Z.of_nat j - Z.of_nat (length ins))) = AxOk (Some j) (nth j ornts None).
+Proof. exact io_axis_int_negative. Qed.
+Print Assumptions negative_axis_index_counts_from_last_input.
+
+Theorem axis_index_out_of_range_refused : forall ins outs ornts z,
+  (z < - Z.of_nat (length ins) \/ Z.of_nat (length ins) <= z)%Z ->
+  io_axis_indices ins outs ornts (AxInt z) = AxErrKey.
+Proof. exact io_axis_int_out_of_range. Qed.
+Print Assumptions axis_index_out_of_range_refused.
+
+Theorem input_axis_name_same_as_its_index : forall ins outs ornts s j,
+  str_index s ins = Some j -> str_index s outs = None ->
+  io_axis_indices ins outs ornts (AxName s) = io_axis_indices ins outs ornts (AxInt (Z.of_nat j)).
+Proof. exact io_axis_input_name. Qed.
+Print Assumptions input_axis_name_same_as_its_index.
+
+Theorem output_axis_name_finds_the_input_driving_it : forall ins outs ornts s o,
+  str_index s ins = None -> str_index s outs = Some o ->
+  exists i, io_axis_indices ins outs ornts (AxName s) = AxOk i (Some o) /\
+    match i with
+    | Some i' => nth i' ornts None = Some o /\ forall j, j < i' -> nth j ornts None <> Some o
+    | None => forall j, nth j ornts None <> Some o
+    end.
+Proof. exact io_axis_output_name. Qed.
+Print Assumptions output_axis_name_finds_the_input_driving_it.
+
+Theorem shared_axis_name_must_correspond : forall ins outs ornts s i o,
+  str_index s ins = Some i -> str_index s outs = Some o ->
+  io_axis_indices ins outs ornts (AxName s) =
+    if onat_eqb (nth i ornts None) (Some o) then AxOk (Some i) (Some o) else AxErrAxis.
+Proof. exact io_axis_shared_name. Qed.
+Print Assumptions shared_axis_name_must_correspond.
+
+Theorem unknown_axis_name_refused : forall ins outs ornts s,
+  str_index s ins = None -> str_index s outs = None -> io_axis_indices ins outs ornts (AxName s) = AxErrAxis.
+Proof. exact io_axis_unknown_name. Qed.
+Print Assumptions unknown_axis_name_refused.
 
 
 (* ------------------------------------------------------------------------
@@ -234,3 +318,19 @@ Example ex_mismatch_refused :
   | Ok a => zcompose [a; a] = Err EValue
   | Err _ => False end.
 Proof. vm_compute. reflexivity. Qed.
+
+(* dropping the last input axis of a 4 -> 3 map by the negative index -1: 'l' and the 't' it drives go *)
+Definition ex4_dom := {| cnames := ["i"; "j"; "k"; "l"]; cname := "in"; cdt := 1 |}.
+Definition ex4_rng := {| cnames := ["x"; "y"; "t"]; cname := "out"; cdt := 1 |}.
+Definition ex4_M : list (list Z) := [[0; 2; 0; 0; 10]; [0; 0; 3; 0; 20]; [0; 0; 0; 5; 30]; [0; 0; 0; 0; 1]]%Z.
+Example ex_drop_last_by_negative_index :
+  match zmk_aff ex4_dom ex4_rng 1 ex4_M with
+  | Ok a => match drop_by_id Z 0%Z 1%Z Z.eqb a (AxInt (-1)) [None; Some 0; Some 1; Some 2] true with
+            | Some (Ok b) => cnames (adom b) = ["i"; "j"; "k"] /\ cnames (arng b) = ["x"; "y"] /\
+                             zapply b [1; 2; 3]%Z = Ok [14; 29]%Z /\ ZWF a
+            | _ => False end
+  | Err _ => False end.
+Proof.
+  destruct (zmk_aff ex4_dom ex4_rng 1 ex4_M) as [a|] eqn:E; [|vm_compute in E; discriminate].
+  assert (W := zmk_wf _ _ _ _ _ E). vm_compute in E. injection E as <-. vm_compute. auto.
+Qed.
